@@ -31,6 +31,7 @@ type SiteSpec struct {
 	Before   bool   // ghost set evaluated before the call executes
 	After    bool   // lemma proved (and then assumed) right after the call, with res bound to its result
 	Iter     bool   // invariant of a callback iteration performed by the callee (at call f: iter-invariant L: e)
+	Later    string // `at call f: later p`: the closure passed as parameter p runs later, from a state other goroutines have moved on
 	SetGhost string // `at call f: set $g := expr` (expr may mention res)
 	SetExpr  Expr
 }
@@ -437,6 +438,21 @@ func ParseSpecFile(path string) (*SpecFile, error) {
 				}
 				curFunc.Sites = append(curFunc.Sites, &SiteSpec{Kind: kind, Callee: callee, Ordinal: ord, SetGhost: strings.TrimSpace(body[:a]), SetExpr: ex, Before: before,
 					Clause: &Clause{Label: "set " + strings.TrimSpace(body[:a]), Line: s.no}})
+				break
+			}
+			if j := strings.Index(rest, ": later "); j >= 0 {
+				head := strings.TrimSpace(rest[:j])
+				kind := firstWord(head)
+				callee := strings.TrimSpace(head[len(kind):])
+				ord := 0
+				if k := strings.LastIndex(callee, " #"); k >= 0 {
+					if n, err := strconv.Atoi(callee[k+2:]); err == nil {
+						ord = n
+						callee = strings.TrimSpace(callee[:k])
+					}
+				}
+				curFunc.Sites = append(curFunc.Sites, &SiteSpec{Kind: kind, Callee: callee, Ordinal: ord, Later: strings.TrimSpace(rest[j+len(": later "):]),
+					Clause: &Clause{Label: "later " + strings.TrimSpace(rest[j+len(": later "):]), Line: s.no}})
 				break
 			}
 			isLemma := false
